@@ -552,6 +552,7 @@ func run(cfg *Config, prefix []int, body func(), trace bool) *Exec {
 		}
 	}
 	s.wg.Wait()
+	WatchdogIdle() // nothing of the program under test runs between executions
 	S = nil
 	if cfg.SharedOnly {
 		for i := range s.points {
@@ -642,6 +643,10 @@ func WatchdogIdle() {
 
 // ---------------------------------------------------------------------------
 // explorer
+
+// livelockBranchWindow: number of choice points after the replayed prefix at
+// which deviations of a livelocked (event budget exhausted) execution are tried.
+const livelockBranchWindow = 256
 
 // Config bounds one exploration.
 type Config struct {
@@ -775,7 +780,14 @@ func Explore(cfg Config, body func(), check func(x *Exec) (string, *Violation)) 
 				}
 			}
 		}
-		for i := len(prefix); i < len(x.points); i++ {
+		limit := len(x.points)
+		if x.Livelock && limit > len(prefix)+livelockBranchWindow {
+			// a spinning execution has as many choice points as its event budget: its
+			// schedule space is cyclic. The livelock itself has been handed to the
+			// check; deviations are tried only in a window after the prefix.
+			limit = len(prefix) + livelockBranchWindow
+		}
+		for i := len(prefix); i < limit; i++ {
 			p := x.points[i]
 			for a := 1; a < p.nalts; a++ {
 				pc, tc, nc := p.preBefore, p.earlyBefore, p.ndBefore
